@@ -3,6 +3,8 @@ package props
 
 import (
 	"fmt"
+	"runtime/debug"
+	"strings"
 	"sync/atomic"
 
 	"verif/sim/report"
@@ -98,7 +100,54 @@ type Evidence struct {
 // All is the registry, filled by the property files' init functions.
 var All = map[string]*Property{}
 
-func register(p *Property) { All[p.ID] = p }
+func register(p *Property) {
+	if p.ID != "C02" && !p.NeedsSched {
+		p.Run = setPanicsAside(p.Run)
+	}
+	All[p.ID] = p
+}
+
+// setPanicsAside is the safety net behind the per-arm guards of C07, C10 and
+// C17: a panic raised by the code under test (or by x/image/vector below it)
+// anywhere else in a case is C02's business, not theirs, so the case is set
+// aside and counted. A panic raised by the harness itself is a defect of the
+// harness and is passed on (the worker dies, the run ends in trouble, exit 2).
+func setPanicsAside(run func(*Ctx, *tape.Tape) *report.Violation) func(*Ctx, *tape.Tape) *report.Violation {
+	return func(ctx *Ctx, t *tape.Tape) (v *report.Violation) {
+		defer func() {
+			if r := recover(); r != nil {
+				if !panicRaisedByCodeUnderTest(string(debug.Stack())) {
+					panic(r)
+				}
+				if ctx.Stats != nil {
+					ctx.Stats.Add("cases_set_aside_because_the_code_panicked", 1)
+				}
+				v = nil
+			}
+		}()
+		return run(ctx, t)
+	}
+}
+
+// panicRaisedByCodeUnderTest looks at the stack of a recovered panic: the
+// first frame below panic() that is not the Go runtime's decides.
+func panicRaisedByCodeUnderTest(stack string) bool {
+	lines := strings.Split(stack, "\n")
+	i := 0
+	for ; i < len(lines); i++ {
+		if strings.HasPrefix(lines[i], "panic(") {
+			break
+		}
+	}
+	for i++; i < len(lines); i++ {
+		l := lines[i]
+		if l == "" || l[0] == '\t' || strings.HasPrefix(l, "runtime.") || strings.HasPrefix(l, "panic(") {
+			continue
+		}
+		return strings.HasPrefix(l, "github.com/reactivego/ivg") || strings.HasPrefix(l, "golang.org/x/image/")
+	}
+	return false
+}
 
 func viol(prop, inv, format string, args ...interface{}) *report.Violation {
 	return &report.Violation{Property: prop, Invariant: prop + "." + inv, Message: fmt.Sprintf(format, args...)}
